@@ -65,12 +65,17 @@ type poller struct {
 	// entails writing a single byte to the write end of the wakeupPipe.
 	posts []func()
 
+	// spare is the slice the previous dispatch drained; it is reused for the next batch of posts.
+	spare []func()
+
 	// lck synchronizes access to the posts slice.
 	// This is needed because multiple goroutines can call ioc.Post(...)
 	// on the same IO object.
 	lck sync.Mutex
 
 	// pending is the number of pending posts the poller needs to execute
+	// plus the number of registered read/write interests. Post may be called
+	// from any goroutine, so it is only accessed atomically.
 	pending int64
 
 	// closed is true if the close() has been called on fd
@@ -105,13 +110,13 @@ func NewPoller() (Poller, error) {
 		return nil, err
 	}
 	// ignore the waker
-	p.pending--
+	atomic.AddInt64(&p.pending, -1)
 
 	return p, err
 }
 
 func (p *poller) Pending() int64 {
-	return p.pending
+	return atomic.LoadInt64(&p.pending)
 }
 
 func (p *poller) Close() error {
@@ -130,8 +135,8 @@ func (p *poller) Closed() bool {
 func (p *poller) Post(handler func()) error {
 	p.lck.Lock()
 	p.posts = append(p.posts, handler)
-	p.pending++
 	p.lck.Unlock()
+	atomic.AddInt64(&p.pending, 1)
 
 	// Concurrent writes are thread safe for eventfds.
 	_, err := p.waker.Write(1)
@@ -217,13 +222,19 @@ func (p *poller) dispatch() {
 		}
 	}
 
+	// Take the queued handlers and run them without holding the lock: a handler may itself call Post, which must
+	// not deadlock; what it posts is run by the next dispatch.
 	p.lck.Lock()
-	for _, handler := range p.posts {
-		handler()
-		p.pending--
-	}
-	p.posts = p.posts[:0]
+	posts := p.posts
+	p.posts = p.spare[:0]
 	p.lck.Unlock()
+
+	for i, handler := range posts {
+		handler()
+		posts[i] = nil
+		atomic.AddInt64(&p.pending, -1)
+	}
+	p.spare = posts
 }
 
 func (p *poller) SetRead(slot *Slot) error {
@@ -237,7 +248,7 @@ func (p *poller) SetWrite(slot *Slot) error {
 func (p *poller) setRW(fd int, slot *Slot, flag PollerEvent) error {
 	events := &slot.Events
 	if *events&flag != flag {
-		p.pending++
+		atomic.AddInt64(&p.pending, 1)
 
 		oldEvents := *events
 		*events |= flag
@@ -251,7 +262,7 @@ func (p *poller) setRW(fd int, slot *Slot, flag PollerEvent) error {
 		if err != nil {
 			// The kernel refused the registration (descriptor not pollable, closed, ...): nothing is in flight.
 			*events = oldEvents
-			p.pending--
+			atomic.AddInt64(&p.pending, -1)
 		}
 		return err
 	}
@@ -302,7 +313,7 @@ func (p *poller) Del(slot *Slot) error {
 func (p *poller) DelRead(slot *Slot) error {
 	events := &slot.Events
 	if *events&PollerReadEvent == PollerReadEvent {
-		p.pending--
+		atomic.AddInt64(&p.pending, -1)
 		*events ^= PollerReadEvent
 		if *events != 0 {
 			return p.modify(slot.Fd, createEvent(*events, slot))
@@ -315,7 +326,7 @@ func (p *poller) DelRead(slot *Slot) error {
 func (p *poller) DelWrite(slot *Slot) error {
 	events := &slot.Events
 	if *events&PollerWriteEvent == PollerWriteEvent {
-		p.pending--
+		atomic.AddInt64(&p.pending, -1)
 		*events ^= PollerWriteEvent
 		if *events != 0 {
 			return p.modify(slot.Fd, createEvent(*events, slot))
